@@ -98,7 +98,10 @@ class G2:
         if k == "abs":
             return f"abs({self.num(env, d - 1)})"
         if k == "fn":
-            f = r.choice(["twice_it", "scale_it", "sin", "DeltaR"])
+            f = r.choice(["twice_it", "scale_it", "sin", "DeltaR", "evt_weight"])
+            if f == "evt_weight":
+                self.use_func(f)
+                return f"evt_weight({r.choice(FLOATS)})"
             if f == "twice_it":
                 self.use_func(f)
                 return f"twice_it({self.num(env, d - 1)})"
@@ -228,8 +231,11 @@ class G2:
                 bank = r.choice(prev)  # deliberately the bank name another collection of this query already uses
             if r.random() < qgen.P_ODD_BANK or (any(":" in o["bank"] for o in self.occ) and r.random() < 0.8):
                 bank = qgen.odd_bank(r, name, bank, self.occ)
-            self.occ.append({"coll": name, "bank": bank, "type": c["ctype"], "uncond": self.uncond and not env["objs"] and not env["nums"]})
-            return f'e.{name}("{bank}")', c["etype"]
+            call = name
+            if r.random() < qgen.P_DECL:
+                call = qgen.declare_collection(self.md, r, self.b, name)
+            self.occ.append({"coll": call, "bank": bank, "type": c["ctype"], "uncond": self.uncond and not env["objs"] and not env["nums"]})
+            return f'e.{call}("{bank}")', c["etype"]
         if k == "subs":
             cands = [(o, et) for o, et in env["objs"] if not o.startswith("sub")]
             if not cands:
